@@ -318,7 +318,7 @@ theorem next_int (n : Nat) (w r : Text) (hw : Spec.Lexical.isIntValue w = true) 
       have hro := readOverInteger_ip n d ds r hw hdr
       simp only [List.cons_append] at hro htake ⊢
       rw [next_number n 45 _ (Or.inl rfl)]
-      simp only [readNumber, ↓reduceIte, hro, t1, t2, t3, bind, Except.bind, pure, Except.pure, Except.map,
+      simp only [readNumber, skipMinus, ↓reduceIte, hro, t1, t2, t3, bind, Except.bind, pure, Except.pure, Except.map,
         Bool.or_self, Bool.false_eq_true]
       rw [htake]
   · cases w with
@@ -339,7 +339,7 @@ theorem next_int (n : Nat) (w r : Text) (hw : Spec.Lexical.isIntValue w = true) 
         rcases hw with ⟨rfl, _⟩ | ⟨h, _⟩ <;> omega
       simp only [List.cons_append] at hro htake ⊢
       rw [next_number n d _ (Or.inr hdig)]
-      simp only [readNumber, hd45, ↓reduceIte, hro, t1, t2, t3, bind, Except.bind, pure, Except.pure, Except.map,
+      simp only [readNumber, skipMinus, hd45, ↓reduceIte, hro, t1, t2, t3, bind, Except.bind, pure, Except.pure, Except.map,
         Bool.or_self, Bool.false_eq_true]
       rw [htake]
 
